@@ -35,6 +35,17 @@ DEFAULTS = dict(
     p_spread_edb=0.0,    # fact table with pairwise different values in one Num column
     avoid_d11=True,      # known finding C01 D11 (see gen.cmp); False re-derives it
     p_recif=0.0,         # a variable bound to a record-valued if-then-else, read >= 2 times
+    # --- C08 / C09 profile (all default to "off": the rng stream of other checks is unchanged)
+    # p_aggx (above): aggregating EXPRESSION `Op{e :- body}` at any expression position
+    p_aggx_nobody=0.5,   # share of those (and of p_agg_nobody literals) written without a body
+    aggx_ops=None,       # operators of aggregating expressions (None: agg_ops)
+    p_agg_nobody=0.0,    # body-less aggregating literal `v Op= e` / `v == Op{e}` among filters
+    p_sibling_reuse_neg=0.0,   # sibling NEGATIONS re-use local names (`~E(x, y), ~E(y, x)`)
+    p_inj_combine=0.0,   # injectibles whose bodies contain combines / negations
+    p_inj_extra=0.0,     # extra calls of injectibles in a rule body (twice, nested)
+    p_fcall_nest=0.0,    # an argument of an injectible function call is such a call itself
+    p_name_clash=0.0,    # new variables named like locals of injectibles / sibling combines
+    p_call_idb=0.0,      # a call prefers an intensional predicate (deeper plans)
 )
 
 
@@ -54,6 +65,9 @@ class Gen(object):
         self.labels = set()
         self.kvariants = set()
         self.colvals = {}        # (pred, field) -> literal exprs present in facts
+        self.hot_names = []      # locals of injectibles' / sibling combines (p_name_clash)
+        self._nest = 0           # current combine/negation nesting (aggregating expressions)
+        self._aggx_off = 0       # > 0: no aggregating expression here
 
     # ------------------------------------------------------------------ helpers
     def chance(self, p):
@@ -80,8 +94,19 @@ class Gen(object):
         if prefer and prefer not in self.used and prefer not in VARNAMES[:0]:
             v = prefer
         else:
-            free = [v for v in VARNAMES if v not in self.used]
-            v = rng.choice(free) if free else 'vv%d' % len(self.used)
+            hot = None
+            if self.o['p_name_clash'] and self.hot_names and \
+                    self.chance(self.o['p_name_clash']):
+                # controlled reuse (ii): a caller's variable is named like a local of an
+                # injectible / of sibling combines of a predicate that may be injected
+                hot = [v for v in self.hot_names if v not in self.used]
+                if hot:
+                    self.labels.add('name_clash_candidate')
+            if hot:
+                v = rng.choice(hot)
+            else:
+                free = [v for v in VARNAMES if v not in self.used]
+                v = rng.choice(free) if free else 'vv%d' % len(self.used)
         env[v] = t
         self.used.add(v)
         return v
@@ -149,6 +174,11 @@ class Gen(object):
             fc = self.fcall(t, env, depth)
             if fc:
                 return fc
+        if depth > 0 and self.o['p_aggx'] and not self._aggx_off and \
+                self._nest < self.o['nest_depth'] and self.chance(self.o['p_aggx']):
+            ax = self.aggx(t, env, depth)
+            if ax:
+                return ax
         r = rng.random()
         if depth <= 0 or r < 0.35 or t in ('LN', 'LS', 'R'):
             if t in ('LN', 'LS', 'R') and depth > 0 and self.o['p_if_composite'] and \
@@ -243,14 +273,127 @@ class Gen(object):
             return None
         n = rng.choice(cands)
         if n in self.inj:
-            ptypes = self.inj_sig[n][1]
-            self.labels.add('inj_fun_call')
-            return ('fcall', n, tuple((i, self.expr(pt, env, depth - 1, False))
-                                      for i, pt in enumerate(ptypes)))
+            return self.inj_fcall(n, env, depth)
         fields = self.pick_fields(self.sig[n], atoms_only=True)
         self.labels.add('fcall')
         return ('fcall', n, tuple((f, self.expr(ft, env, depth - 1, False))
                                   for f, ft in fields))
+
+    def inj_fcall(self, n, env, depth, nest=True):
+        """Call of the injectible function n; with p_fcall_nest an argument is itself a
+        call of an injectible function (F(F(1)): nested injection)."""
+        ptypes = self.inj_sig[n][1]
+        self.labels.add('inj_fun_call')
+        args = []
+        for i, pt in enumerate(ptypes):
+            a = None
+            if nest and self.o['p_fcall_nest'] and self.chance(self.o['p_fcall_nest']):
+                inner = [m for m in self.inj if self.inj_sig[m][0] == 'fun' and
+                         self.inj_sig[m][2] == pt]
+                if inner:
+                    m = n if (n in inner and self.rng.random() < 0.5) else \
+                        self.rng.choice(inner)
+                    a = self.inj_fcall(m, env, 1, nest=self.rng.random() < 0.25)
+                    self.labels.add('inj_fun_call_nested')
+                    if m == n:
+                        self.labels.add('inj_fun_call_nested_same')
+            if a is None:
+                a = self.expr(pt, env, depth - 1, False)
+            args.append((i, a))
+        return ('fcall', n, tuple(args))
+
+    # ---- scopes of combines / negations / aggregating expressions
+    def _open_scope(self, p_reuse):
+        """Controlled reuse (i): with probability p_reuse the local names of earlier
+        sibling scopes are free for the allocator while this scope is built."""
+        saved_used = None
+        if self.chance(p_reuse) and getattr(self, '_sib_locals', None):
+            saved_used = set(self.used)
+            self.used -= self._sib_locals
+            self.labels.add('sibling_name_reuse')
+        return (saved_used, set(self.used))
+
+    def _close_scope(self, tok, inner):
+        saved_used, before = tok
+        locals_ = set(self.used) - before
+        if saved_used is not None:
+            locals_ |= self._sib_locals & set(inner)
+            self.used |= saved_used
+        self._sib_locals = set(getattr(self, '_sib_locals', set())) | locals_
+        return locals_
+
+    def aggx(self, t, env, depth):
+        """Aggregating EXPRESSION of type t: `Op{e :- body}` or, body-less, `Op{e}`."""
+        rng = self.rng
+        ops = self.o['aggx_ops'] or self.o['agg_ops']
+        if t == 'N':
+            cand = [x for x in ops if x in ('Sum', 'Min', 'Max', 'Count', '+', 'ArgMin',
+                                            'ArgMax')]
+        elif t == 'S':
+            cand = [x for x in ops if x in ('Min', 'Max', 'ArgMin', 'ArgMax')]
+        elif t in ('LN', 'LS'):
+            cand = [x for x in ops if x in ('List', 'Set') or x in KVARIANTS]
+        else:
+            cand = []
+        if not cand:
+            return None
+        op = rng.choice(cand)
+        inner = dict(env)
+        tok = None
+        if self.chance(self.o['p_aggx_nobody']):
+            b = ()
+            self.labels.add('aggx_bodyless')
+        else:
+            tok = self._open_scope(self.o['p_sibling_reuse'])
+            b = tuple(self.sub_body(inner, self.o['nest_depth'] - self._nest - 1))
+            self.labels.add('aggx_with_body')
+        self._nest += 1
+        try:
+            if op == 'Count':
+                e = self.expr(rng.choice(ATOMS), inner, 1)
+            elif op in ('ArgMin', 'ArgMax'):
+                e = ('arrow', self.expr(t, inner, 1), self.expr('N', inner, 1))
+            elif op in KVARIANTS:
+                e = ('arrow', self.expr(t[1], inner, 1), self.expr('N', inner, 1))
+                self.kvariants.add(op)
+            elif op in ('List', 'Set'):
+                e = self.expr(t[1], inner, 1)
+            else:
+                e = self.expr(t, inner, 1)
+        finally:
+            self._nest -= 1
+        if tok is not None:
+            self._close_scope(tok, inner)
+        self.labels.add('aggx')
+        self.labels.add('aggx_' + op)
+        return ('aggx', op, e, b)
+
+    def agg_nobody(self, env):
+        """Body-less aggregating literal `v Op= e` (inline `y += x`), `v == Op{e}`."""
+        rng = self.rng
+        ops = [x for x in (self.o['aggx_ops'] or self.o['agg_ops'])
+               if x in ('Sum', 'Min', 'Max', 'Count', '+', 'List', 'Set')]
+        if not ops:
+            return None
+        op = rng.choice(ops)
+        self._nest += 1
+        try:
+            if op == 'Count':
+                e, t = self.expr(rng.choice(ATOMS), env, 1), 'N'
+            elif op in ('Sum', '+'):
+                e, t = self.expr('N', env, 1), 'N'
+            elif op in ('List', 'Set'):
+                et = rng.choice(ATOMS)
+                e, t = self.expr(et, env, 1), 'L' + et
+            else:
+                t = rng.choice(ATOMS)
+                e = self.expr(t, env, 1)
+        finally:
+            self._nest -= 1
+        v = self.newvar(env, t)
+        self.labels.add('agg_literal_bodyless')
+        return ('agg', v, op, e, (), rng.choice([1, 2]) if op == '+' else
+                rng.choice([0, 1, 2, 3]))
 
     def pick_fields(self, s, atoms_only=False, min_one=False):
         """A legal subset of a signature's fields for a call: a prefix of the
